@@ -47,6 +47,7 @@ func runC17(r *Run) {
 	c17HttpPeer(r)
 	c17ChanPeerCloses(r)
 	c17WsStuckTalker(r)
+	c17ReattachFromCallback(r)
 	// an unresponsive HTTP destination whose connection idles out while the proxy's write is stuck
 	// (c19d.go): the sender's goroutine — the proxy's writeLoop — must not panic
 	if r.Want("httppeer") && c17Leaks <= 2 {
